@@ -58,7 +58,7 @@ func genC16(t *rapid.T) C16Sc {
 	if sc.Implied && rapid.Bool().Draw(t, "port0") {
 		sc.Port = 0
 	}
-	n := rapid.IntRange(1, 40).Draw(t, "nnodes")
+	n := rapid.IntRange(1, deep(t, 40)).Draw(t, "nnodes")
 	for i := 0; i < n; i++ {
 		nd := C16Node{IDCpl: rapid.IntRange(0, 20).Draw(t, "n.cpl"), IDTail: genBytesN(t, 20, "n.tail"),
 			Reply: rapid.SampledFrom([]string{"token", "token", "token", "token", "token", "empty-token", "no-token", "int-token", "error", "silent"}).Draw(t, "n.reply"),
